@@ -27,6 +27,18 @@ def generate(rng, tier):
                 cases.append(Case("path.new", [enc(s)], meta={"s": s}))
     for s in ["foo/bar", "foo//bar//", "../../foo/bar/", "..//..//foo//bar//", "\0", ".. /../foo/bar", "é/漢", "a b/c d", "a/b/.", "./", "a/b//./.", "../../a/.b", "../../.a/b.", "a/..b"]:
         cases.append(Case("path.new", [enc(s)], meta={"s": s}))
+    # names have no length limit (254 / 255 / 256 / 1000 / 5000 bytes), may start with dots, contain ':'-free odd characters
+    for L in (254, 255, 256, 1000, 5000):
+        for s in ("cat/" + "p" * L, "c" * L + "/pkg", "../../cat/" + "p" * L, "../../" + "c" * L + "/" + "p" * L, "c" * L + "/" + "p" * L + "/x"):
+            cases.append(Case("path.new", [enc(s)], meta={"s": s}))
+        cases.append(Case("dep.new", [enc("pkg-[0-9]*:../../cat/" + "p" * L)], meta={"s": "x:long"}))
+    for s in ["../../.config/pkg", ".config/pkg", "../../..data/pkg", "../../.../pkg", ".../pkg", "../../cat/.pkg", "../../.a/.b", ".a/.b", "..a/b", "../../..a/b", "../.././a/b",
+              "a/b\x00", "\x00/b", "a\n/b", "a/\u2028", "../../a\x7f/b", "\ufeffa/b"]:
+        cases.append(Case("path.new", [enc(s)], meta={"s": s}))
+    # every ':' separates, also inside [:class:] brackets
+    for s in ["pkg-[[:digit:]]*:../../cat/pkg", "pkg-[[:digit:]]*", "pkg-[0-9]*:../../cat/[:x:]pkg", "pkg-[:]*:../../cat/pkg", "[:alpha:]:../../cat/pkg", "a[:b:]c:cat/pkg",
+              "pkg-[0-9]*:../../cat/pkg:", ":pkg-[0-9]*:../../cat/pkg", "pkg-[0-9]*\x00:../../cat/pkg", "pkg-[0-9]*:\x00../../cat/pkg"]:
+        cases.append(Case("dep.new", [enc(s)], meta={"s": s}))
     for p in PATS:
         for q in PATHS:
             for sep in (":", "", "::", ":x:"):
